@@ -40,7 +40,7 @@ def cases(draw):
     pool = {"mixed": STATES, "mostly-cur": ["cur"] * 6 + STATES, "all-cur": ["cur"]}[style]
     states = [draw(st.sampled_from(pool)) for _ in range(n)]
     dups = draw(st.lists(st.tuples(st.integers(0, n - 1), st.integers(0, servers - 1), st.sampled_from(["cur", "cur", "old", "comp", "newer"])).map(list), max_size=2))
-    return {"threads": draw(st.sampled_from(["sync", "async"])), "fmt": draw(st.sampled_from(["sdmf", "mdmf"])), "k": k, "n": n, "servers": servers, "states": states, "dups": dups,
+    return {"hsalt": draw(st.integers(0, 15)), "threads": draw(st.sampled_from(["sync", "async"])), "fmt": draw(st.sampled_from(["sdmf", "mdmf"])), "k": k, "n": n, "servers": servers, "states": states, "dups": dups,
             "verify": draw(st.booleans()), "force": draw(st.booleans()), "sched": draw(st.lists(st.integers(0, 9), max_size=30))}
 
 
